@@ -898,4 +898,48 @@ theorem wrapN_owned_example :
     pickIdx (.fixed 2) [.coll .array (.scalar .number), .coll .map .untyped, .scalar .string] hetHeap (.ref 3) = 3 := by
   decide +kernel
 
+-- BEGIN holds-today (valid while `knownRows = []`)
+/-- a site today's table has a row for and the statement speaks about -/
+def knownInScope (tbl : List AliasRow) (op : OpK) (kc : Kind × Cat) : Bool :=
+  (lookupRow tbl op kc.1 kc.2).isSome && inScopeSite op kc.1
+
+/-- **the statement holds today**: no finding row is listed, so for EVERY operation and EVERY declaration built from
+    sites the table has rows for (for a multi-field wrapper: all options; for an immutable owner: the owner row too)
+    and the statement speaks about, all three clauses hold — on all heaps, for all values and all caller scripts -/
+theorem C19_holds_today (op : OpK) (s : Shape)
+    (hk : (sitesOf s).all (knownInScope Generated.aliasing op) = true) : HoldsFor Generated.aliasing op s := by
+  apply C19_today
+  refine all_imp ?_ _ hk
+  intro kc h
+  simp only [knownInScope] at h
+  simp only [admitted]
+  cases hl : lookupRow Generated.aliasing op kc.1 kc.2 with
+  | none => rw [hl] at h; simp at h
+  | some r =>
+    rw [hl] at h
+    simp only [Option.isSome_some, Bool.true_and] at h
+    have hr : r.op = op ∧ r.kind = kc.1 := by
+      have := List.find?_some hl
+      simp only [Bool.and_eq_true, beq_iff_eq] at this
+      exact ⟨this.1.1, this.1.2⟩
+    have hs : r.inScope = true := by
+      simp only [AliasRow.inScope, hr.1, hr.2]; exact h
+    have hn : isKnown r = false := by
+      simp only [isKnown, knownRows]; rfl
+    simp only [hs, hn]; rfl
+
+/-- non-vacuity: declarations with several container options per wrapper, nested collections and structures meet the
+    hypothesis of `C19_holds_today` under construction, assignment, both serializers and the Deserializer -/
+theorem C19_holds_today_example :
+    ((sitesOf hetShape).all (knownInScope Generated.aliasing .construct) &&
+     (sitesOf hetShape).all (knownInScope Generated.aliasing .serialize) &&
+     (sitesOf hetShape).all (knownInScope Generated.aliasing .deserialize) &&
+     (sitesOf oneOfShape).all (knownInScope Generated.aliasing .construct) &&
+     (sitesOf exampleShape).all (knownInScope Generated.aliasing .fastSerialize) &&
+     (sitesOf (Shape.coll .array (.coll .map (.scalar .number)))).all (knownInScope Generated.aliasing .setattr) &&
+     (sitesOf (Shape.coll .array (.coll .map (.scalar .number)))).all (knownInScope Generated.aliasing .fieldSerialize)) = true := by
+  decide +kernel
+
+-- END holds-today
+
 end Typedpy.C19
